@@ -8,6 +8,6 @@ echo "demo_cmd: $demo"
 go build -tags dae_stub_ebpf ./... && echo "BUILD ok" || echo "BUILD FAILED"
 go test -vet=off -count=1 -skip 'SeedDemo|Seed' ./common/... ./component/... ./config/... ./pkg/... > /tmp/seedbase.out 2>&1 && echo "BASELINE ok" || { echo "BASELINE FAILED"; grep -v "^ok\|no test files" /tmp/seedbase.out | head; }
 bash -c "$demo" > /tmp/seeddemo1.out 2>&1 && echo "DEMO with change: PASS (unexpected)" || echo "DEMO with change: FAIL (expected)"
-git stash -q
+git diff > /tmp/seedconfirm_$$.patch; git apply -R /tmp/seedconfirm_$$.patch
 bash -c "$demo" > /tmp/seeddemo2.out 2>&1 && echo "DEMO without change: PASS (expected)" || { echo "DEMO without change: FAIL (unexpected)"; tail -5 /tmp/seeddemo2.out; }
-git stash pop -q
+git apply /tmp/seedconfirm_$$.patch; rm -f /tmp/seedconfirm_$$.patch
